@@ -212,7 +212,7 @@ def r5(ctx, F, hub):
         for o in so:
             if o.kind == 'call' and o.key == 'std::io::Read::take':
                 lo = call_arg_origins(fl, o.bb, 1)
-                if lo and all(x.kind == 'param' and x.key == len_i and not x.path for x in lo):
+                if request_value(F, b, lo, 'u64'):
                     consumers.append(cb)
     replies = fl.calls_to('wire::write_frame')
     if not replies:
